@@ -9,11 +9,49 @@ COMMON_NOTE = ("Trusted base: go/ssa construction of /repo (x/tools v0.29.0), th
                "and the trusted library/back-end stubs listed in the evidence file (trusted_base). Goroutine interleavings, "
                "termination, timing and panics raised by backend callbacks are outside the sequential VCs. ")
 
+T = "contract-based deductive verification: WP/passive VCs over go/ssa of /repo, contracts in //@ comments, discharged by z3/cvc5"
+
 CLAIMS = {
  "C01": dict(
-   text="Deductive proof, for all octet streams, read sizes and segmentations: the loop of (*dataReader).Read is a lock-step simulation of the RFC 5321 dot-unstuffing transducer written from the property text (6 states x 4 octet classes, one obligation per cell), stated over the absolute position in the ghost input stream, so composition over calls is immediate. Every obligation is an SMT query generated from go/ssa of the current /repo; unsat = discharged.",
+   text="Deductive proof, for all octet streams, read sizes and segmentations: the loop of (*dataReader).Read is a lock-step simulation of the RFC 5321 dot-unstuffing transducer written from the property text (6 states x 4 octet classes, one obligation per cell), stated over the absolute position in the ghost input stream, so composition over calls and independence of segmentation and read sizes are immediate. Every obligation is an SMT query generated from go/ssa of the current /repo; unsat = discharged.",
    note=COMMON_NOTE + "Assumed: bufio.Reader.ReadByte/UnreadByte stubs (octets delivered in order whatever the segmentation); the definitional axioms of the k-th-output-octet function outv.",
-   design="3.C01", technique="contract-based deductive verification: loop invariant as simulation of a spec transducer, WP over go/ssa, z3/cvc5"),
+   design="3.C01", technique=T + "; loop invariant as simulation of a spec transducer"),
+ "C02": dict(
+   text="Deductive proof: (a) end detection is the state component of the C01 simulation (only <CRLF>.<CRLF> or a leading .<CRLF> reaches END; nothing is read after END); (b) handleData ensures, on every path and whatever the backend stub did with the reader (read all, part, nothing; any result), that the spec transducer started at the 354 is in END at the stream position reached (or the connection failed), i.e. the next command is parsed exactly after the end marker. SMTP mode; the LMTP paths are covered by the same reader contract but their resynchronisation post is not yet under contract in this revision.",
+   note=COMMON_NOTE + "Assumed: Session.Data stub (backend reads any prefix of the reader and does not keep it), io.Copy stub (reads until error, terminates), bufio stubs.",
+   design="3.C02", technique=T),
+ "C03": dict(
+   text="Deductive proof: representation invariant connInv(Conn) preserved by every command handler and by the command loop (loop invariant), hence after every command history; the ordering clauses of the property are the preconditions of the backend-callback stubs (Mail only when greeted and no transfer in progress, Rcpt only after accepted Mail and below the limit, Data only with >=1 accepted Rcpt, NewSession only without a session and with the greeting name already visible), checked at every real call site; refusal branches ensure 5xx and unchanged callback counters; transaction ends ensure sender/recipients discarded and Reset signalled.",
+   note=COMMON_NOTE + "Assumed: backend callbacks do not re-enter Conn.Close/Reject; NewSession returns a fresh non-nil session on success. LMTP-specific paths of DATA/BDAT are not yet under contract (the handlers are verified for SMTP mode).",
+   design="3.C03", technique=T + "; data-structure invariant + call-site preconditions on callback stubs"),
+ "C05": dict(
+   text="Deductive proof on handleBdat/discardChunk: framing post on every return path (declared size well-formed => stream position advanced by exactly the declared size, refusals included, or the connection failed; nothing read for a malformed command), clean close of the pipe only after a complete LAST chunk (call-site obligation), one final reply per command, line limit lifted during the copy and restored on every exit. Transparency of the payload is the io.Copy/LimitReader stub (no transformation).",
+   note=COMMON_NOTE + "Assumed: io.Copy / io.LimitReader / io.Pipe stubs; strconv.ParseUint and strings.Fields as deterministic functions. Not decided: the line limiter counting payload octets that bufio read ahead together with the BDAT line.",
+   design="3.C05", technique=T),
+ "C06": dict(
+   text="Deductive proof: reader budget invariant delivered + n == limit (so never more than N octets over any sequence of reads), newDataReader takes the budget from MaxMessageBytes, ErrDataTooLarge only with an exhausted budget, SIZE > N refused before the Mail callback (stub precondition), BDAT accumulation bounded by N (connInv conjunct, over-limit chunk discarded and transaction reset).",
+   note=COMMON_NOTE + "Known finding (open): a DATA message of exactly N octets is refused (limit-transparency clause).",
+   design="3.C06", technique=T),
+ "C07": dict(
+   text="Deductive proof: Read returns io.EOF only in spec state END (network EOF becomes ErrUnexpectedEOF); the BDAT pipe is closed cleanly only after a complete LAST chunk (short chunk => error), every abort path (RSET, QUIT/Close, new EHLO, failed chunk, end of the command loop) closes it with a non-nil error; handleConn ensures no transfer is left open at exit.",
+   note=COMMON_NOTE + "Assumed: io.Pipe semantics (CloseWithError(e!=nil) is seen as e by the reader). Not decided: timeouts while a chunk is being copied.",
+   design="3.C07", technique=T),
+ "C08": dict(
+   text="Deductive proof: ghost counters cbNew/cbLogout and the per-session ghost loggedOut; invariant cbNew - cbLogout == (session != nil), Logout stub requires !loggedOut and every other callback stub requires a current, not-logged-out session on a connection that is not closed; Close ensures closed, session logged out exactly once, idempotent; handle requires !closed and the command loop leaves once the connection was closed; handleConn ensures closed and cbNew == cbLogout on every exit.",
+   note=COMMON_NOTE + "Not decided: atomicity of Logout against a concurrent Server.Close; goroutine lifetime.",
+   design="3.C08", technique=T),
+ "C09": dict(
+   text="Deductive proof (server half): AuthSession.Auth and sasl.Server.Next stubs require authAllowed (TLS or AllowInsecureAuth), a prior greeting and !didAuth at every real call site; handleAuth ensures didAuth changes only to true and only together with a 235, refusal codes for missing greeting / repeated AUTH / insecure connection without any mechanism call; STARTTLS erases didAuth.",
+   note=COMMON_NOTE + "Assumed: base64 stubs. The client half (Client.Auth) is not yet under contract in this revision.",
+   design="3.C09", technique=T),
+ "C10": dict(
+   text="Deductive proof (server half): handleStartTLS accepted only when TLS is configured and not active (tls.Server stub preconditions), success path ensures all plaintext state gone (helo, didAuth, envelope, session logged out and cleared) and a NEW textproto.Conn with a new empty bufio.Reader and a new line limiter reading from the TLS connection (store of conn before init()), refusal/failed handshake changes nothing.",
+   note=COMMON_NOTE + "Assumed: tls.Server / Handshake / textproto.NewConn stubs. The client half (startTLS, DialStartTLS, sendMail) is not yet under contract in this revision.",
+   design="3.C10", technique=T),
+ "C19": dict(
+   text="Deductive proof: lineLimitReader.Read tracks the run length written from the property text (loop invariant), refusal only if a run exceeds the limit, delivered data only with all runs within the limit, sticky refusal; readLine requires the limit to be active at every call site (command loop invariant, AUTH continuation); protocolError counts and gives up after more than three errors; zero-annotation safety sweep (bounds, nil, type assertion, nil map, explicit panic, overflow) over the functions under contract reachable from handleConn.",
+   note=COMMON_NOTE + "Assumed: 0 <= MaxLineLength < MaxInt; the transport does not return data together with an error. Parser functions are under the sweep only where they have contracts in this revision.",
+   design="3.C19", technique=T),
 }
 
 def main():
